@@ -10,13 +10,23 @@ pub enum Alphabet {
     Ascii,
     Utf8,
     CrBlank,
+    /// legal but unusual characters: BOM, NUL, Unicode line/paragraph separators, NEL, VT, FF, a CR in mid-line
+    Odd,
 }
 
 pub fn gen_char(rng: &mut Rng, alphabet: Alphabet) -> &'static str {
     const ASCII: [&str; 20] = ["a", "b", "c", "x", "y", "z", "0", "1", "7", " ", "'", "%", "=", ";", ",", "-", ".", "A", "Q", "_"];
     const MULTI: [&str; 12] = ["é", "ß", "ø", "Ω", "€", "日", "本", "✓", "😀", "𝄞", "🚀", "ü"];
     const BLANK: [&str; 6] = [" ", "\t", "\r", "  ", "a", "b"];
+    const ODD: [&str; 10] = ["\u{FEFF}", "\0", "\u{2028}", "\u{2029}", "\u{85}", "\x0b", "\x0c", "\r", "\u{1b}", "\u{a0}"];
     match alphabet {
+        Alphabet::Odd => {
+            if rng.chance(1, 3) {
+                *rng.pick(&ODD)
+            } else {
+                *rng.pick(&ASCII)
+            }
+        }
         Alphabet::Ascii => *rng.pick(&ASCII),
         Alphabet::Utf8 => {
             if rng.chance(2, 3) {
@@ -61,6 +71,9 @@ pub fn gen_line(rng: &mut Rng, alphabet: Alphabet, cap: usize, allow_huge: bool)
             }
         }
         return out;
+    }
+    if alphabet == Alphabet::Odd && rng.chance(1, 4) {
+        out.extend_from_slice("\u{FEFF}".as_bytes()); // a byte order mark at the start of a line
     }
     while out.len() < target {
         out.extend_from_slice(gen_char(rng, alphabet).as_bytes());
@@ -227,4 +240,18 @@ pub fn gen_read_mode(rng: &mut Rng) -> ReadMode {
         8 => ReadMode::Max(1),
         _ => ReadMode::Max(rng.range(2, 9) as usize),
     }
+}
+
+/// A line of `len` bytes (ASCII filler with a few multi-byte characters), for regimes beyond every
+/// buffer size in the system (64 KiB, 1 MiB).
+pub fn gen_giant_line(rng: &mut Rng, len: usize) -> Vec<u8> {
+    let mut out = Vec::with_capacity(len + 4);
+    while out.len() < len {
+        if rng.chance(1, 4000) {
+            out.extend_from_slice("€".as_bytes());
+        } else {
+            out.push(b'a' + (out.len() % 26) as u8);
+        }
+    }
+    out
 }
